@@ -105,6 +105,18 @@ CHECKS = {
         "iostream retry loops are exercised, not modelled.",
    technique="Lean 4 proof of the I/O loops + fault enumeration on the real binaries",
    design="6/C03"),
+ "C04": dict(
+   text="Kernel-checked Lean theorems over a functional model of cache's Input()/Output() loops composed through the FIFO of entry "
+        "references: the child receives precisely the first-occurrence lines, each once and in order; cache prints, for every "
+        "input line in order, the child's answer to the first line with the same key; with injective (whole-line) keys that is "
+        "the child's own output; one line out per line in. The thread/pipe interleavings are the wrapper LTS of C05 instantiated "
+        "for cache (entry produced before the line is written), exit status is C11. Tied to bin/cache with logging children "
+        "(4 transforms x 3 buffering policies), exhaustive duplicate patterns, >4096 distinct lines, lines beyond pipe capacity, "
+        "-k/-t, with the recorded PV_TRACE event log accepted by the wrapper automaton.",
+   note="Trusted: Lean kernel + standard axioms; child = deterministic line-to-line function; 64-bit key collisions excepted; answers "
+        "compared as C02 records; bounded differential execution.",
+   technique="Lean 4 proof (cache_output_spec, child_sees_firstOcc) + correspondence run with logging children and trace acceptance",
+   design="6/C04"),
  "C01": dict(
    text="Kernel-checked Lean theorems: the dedupe loop over the proved hash-table model (C13) writes exactly the first-occurrence "
         "lines of any input for any key function without a zero hash, in input order (hence sublist, no key twice, every key once, "
